@@ -158,6 +158,8 @@ def do_call(data, call, disk, prefix):
 def run_history(trace, stats=None):
     out = []
     data = gen.build(trace["obj"])
+    if _GUARD is not None and _GUARD.changed():
+        _GUARD.restore()  # cold start (see c16._cold_start)
     snap0 = snapshot(data)
     disk = seams.SimDisk(buffer_size=trace.get("buffer_size", 8192), log_events=False)
     nontriv = False
@@ -199,6 +201,8 @@ def run_history(trace, stats=None):
 def run_threads(trace, rng=None, stats=None):
     out = []
     data = gen.build(trace["obj"])
+    if _GUARD is not None and _GUARD.changed():
+        _GUARD.restore()  # cold start (see c16._cold_start)
     snap0 = snapshot(data)
     disk = seams.SimDisk(log_events=False)
     policy = tuple(trace["policy"])
@@ -294,7 +298,9 @@ def gen_trace(rng):
         return {"mode": "history", "obj": recipe, "calls": calls, "buffer_size": rng.choice([16, 8192])}
     n = rng.randint(2, 4)
     calls = [call() for _ in range(n)]
-    policy = ["random", rng.choice([0.002, 0.01, 0.05])] if rng.random() < 0.6 else ["pct", rng.choice([1, 2, 3])]
+    r = rng.random()
+    policy = (["random", rng.choice([0.002, 0.01, 0.05])] if r < 0.4 else
+              ["newline", rng.choice([0.002, 0.01]), rng.choice([0.02, 0.1, 0.3])] if r < 0.7 else ["pct", rng.choice([1, 2, 3])])
     return {"mode": "threads", "obj": recipe, "calls": calls, "policy": policy, "schedule": None,
             "observations": rng.randint(2, 12), "horizon": 6000}
 
